@@ -160,8 +160,13 @@ class Walker(object):
         if ids and r < 0.85:
             # prefer recent ids
             return ids[-1 - min(len(ids) - 1, int(self.rng.expovariate(0.7)))]
-        if r < 0.93:
+        if r < 0.90:
             return self.rng.choice([1, 2, 3, 9, 65535, 300])
+        if r < 0.95:
+            # an identifier in flight on ANOTHER connection of the factory (never issued on this one)
+            other = [i for q, ids2 in table.items() if q != p for i in ids2]
+            if other:
+                return self.rng.choice(other)
         # an id from another table (ack of the wrong kind of thing)
         allids = sum((t.get(p, []) for t in (self.out_pub, self.out_rel, self.out_sub, self.out_unsub)), [])
         return self.rng.choice(allids) if allids else 7
